@@ -33,7 +33,7 @@ func TestMatchJSAccepts(t *testing.T) {
 		{1.5, "1.5"}, {1e21, "1000000000000000000000"}, {1e21, "1e21"}, {math.Inf(1), "Infinity"}, {math.Inf(-1), "-Infinity"}, {math.NaN(), "NaN"},
 		{math.Copysign(0, -1), "-0"}, {float32(0.1), "0.1"}, {float32(0.1), "0.10000000149011612"}, {5e-324, "5e-324"},
 		{"a<b", `"a<b"`}, {"a\xffb", "\"a\xffb\""}, {"a\xffb", `"a\ufffdb"`}, {"\u2028", `"\u2028"`}, {"", `''`},
-		{[]byte{0, 1, 2, 3, 4, 5}, `"AAECAwQF"`}, {[]byte{1, 2}, "[1,2]"}, {[]byte(nil), "null"}, {[]byte(nil), `""`}, {MyBytes{1}, "[1]"}, {MyBytes{1}, `"AQ=="`},
+		{[]byte{0, 1, 2, 3, 4, 5}, `"AAECAwQF"`}, {[]byte{1, 2}, "[1,2]"}, {[]byte(nil), "null"}, {MyBytes(nil), "null"}, {MyBytes{1}, "[1]"}, {MyBytes{1}, `"AQ=="`},
 		{[]int(nil), "null"}, {[]int{}, "[]"}, {[2]bool{}, "[false,false]"}, {[0]int{}, "[]"},
 		{map[string]int(nil), "null"}, {map[string]int{}, "{}"}, {map[string]int{"b": 2, "a": 1}, `{"a":1,"b":2}`}, {map[string]int{"b": 2, "a": 1}, `{a:1,b:2,}`},
 		{map[int]string{10: "x", 9: "y", -1: "z"}, `{"-1":"z","10":"x","9":"y"}`}, {map[bool]int{true: 1, false: 0}, `{"false":0,"true":1}`},
@@ -52,6 +52,9 @@ func TestMatchJSAccepts(t *testing.T) {
 			F time.Time `json:"f,omitempty"`
 		}{1, 2, 0, [0]int{}, nil, time.Time{}}, `{"-":2,"f":new Date("0001-01-01T00:00:00.000Z")}`},
 		{tm, `new Date("2016-01-02T15:04:05.123-00:30")`}, {tm, `new Date("2016-01-02T15:34:05.123Z")`}, {&tm, `new Date(1451748845123)`},
+		{JSer{3}, `[3,"js"]`}, {&JSer{3}, `[ 3 , 'js' ]`}, {(*JSer)(nil), "null"}, {[]any{(*JSer)(nil), JSer{1}}, `[null,[1,"js"]]`},
+		{Opts{I: 4, S: "s", Last: 1}, `{"s":"s","i":4,"B":false,"p":null,"l":null,"m":"","z":0,"zt":new Date("0001-01-01T00:00:00.000Z"),"zs":{"A":0},"zp":null,"ze":null,"x\\y":0,"q\"r":false,"Last":1}`},
+		{Opts{I: 4, S: "s", Last: 1}, `{"s":"s","i":4,"B":false,"p":null,"l":null,"m":"","Bad1":0,"Bad3":false,"Last":1}`},
 	}
 	for _, c := range cases {
 		if err := js(t, c.v, c.src); err != nil {
@@ -80,7 +83,10 @@ func TestMatchJSRejects(t *testing.T) {
 		{Inner{A: 1}, `{"A":1,"b":""}`}, {Inner{A: 1, B: "x"}, `{"A":1}`}, {Inner{A: 1, B: "x"}, `{"A":1,"B":"x"}`}, {Unexp{A: 1, b: "x"}, `{"A":1,"b":"x","C":null,"e":false}`},
 		{FirstOmit{C: 3}, `{,"c":3}`[0:0] + `{"a":0,"c":3}`}, {Emb{Inner{1, ""}, 2}, `{"X":2}`},
 		{tm, `new Date("2016-01-02T15:04:05.123+00:30")`}, {tm, `new Date("2016-01-02T15:04:05.124-00:30")`}, {tm, `"2016-01-02T15:04:05.123-00:30"`}, {tm, `new Date("nonsense")`},
-		{[]any{nil}, "[undefined]"}, {[]any{nil}, "[,]"},
+		{[]any{nil}, "[undefined]"}, {[]any{nil}, "[,]"}, {[]byte(nil), `""`}, {[2][]byte{{1}, nil}, `["AQ==",""]`},
+		{JSer{3}, `{"N":3}`}, {(*JSer)(nil), `[0,"js"]`}, {&JSer{3}, `[4,"js"]`},
+		{Opts{Last: 1}, `{"s":"","i":0,"B":false,"p":null,"l":null,"m":"","Last":1,"Last":1}`}, {Opts{Last: 1}, `{"s":"","i":0,"B":false,"p":null,"l":null,"m":"","Bad1":0,"x\\y":0,"Last":1}`},
+		{Opts{Last: 1}, `{"s":"","i":0,"B":false,"p":null,"l":null,"m":""}`},
 	}
 	for _, c := range cases {
 		if err := js(t, c.v, c.src); err == nil {
@@ -102,7 +108,14 @@ func TestCheckJSON(t *testing.T) {
 		{tm, `"2016-01-02T15:04:05.123456789Z"`, true}, {time.Date(10000, 1, 1, 0, 0, 0, 0, time.UTC), `"whatever"`, false},
 		{Emb{Inner{1, "x"}, 2}, `{"X":2,"b":"x","A":1}`, true}, {FirstOmit{C: 1}, ` { "c" : 1 } `, true}, {map[IntKey]int{1: 2}, `{"1":2}`, true},
 		{[]any{nil, map[string]any{"a": []int{}}}, `[null,{"a":[]}]`, true}, {[]map[int]any{{1: map[string]int{"x": 1, "y": 2}, 2: "{"}}, `[{"1":{"x":1,"y":2},"2":"{"}]`, true},
-		{struct{ B, A int }{1, 2}, `{"B":1,"A":2}`, true}, {struct{ B, A int }{1, 2}, `{"A":2,"B":1}`, true}, {float32(0.1), "0.1", true}, {math.Copysign(0, -1), "-0", true}, {math.Copysign(0, -1), "0", true},
+		{struct{ B, A int }{1, 2}, `{"B":1,"A":2}`, true}, {(*JSer)(nil), "null", true},
+		{struct {
+			F float64 `json:",string"`
+		}{1e22}, `{"F":"10000000000000000000000"}`, true},
+		{struct {
+			S string `json:",string"`
+		}{"'<"}, `{"S":"\"\\u0027\\u003c\""}`, true}, {[]JSer{{2}}, `[{"n":2}]`, true},
+		{Opts{I: 4, S: "s", ZE: []int{}}, `{"s":"\"s\"","i":"4","B":"false","p":null,"l":null,"m":"\"\"","ze":[],"Bad1":0,"Bad3":false,"Last":0}`, true}, {struct{ B, A int }{1, 2}, `{"A":2,"B":1}`, true}, {float32(0.1), "0.1", true}, {math.Copysign(0, -1), "-0", true}, {math.Copysign(0, -1), "0", true},
 	}
 	for _, c := range ok {
 		compared, err := checkJSON(reflect.ValueOf(c.v), c.src)
@@ -118,7 +131,10 @@ func TestCheckJSON(t *testing.T) {
 		{1.5, "1.25"}, {int64(math.MaxInt64), "9223372036854775808"}, {1, `"1"`}, {"1", "1"}, {[]int(nil), "[]"}, {[]int{}, "null"}, {[]byte(nil), `""`}, {MyBytes{1, 2}, "[1,2]"},
 		{tm, `"2016-01-02T15:04:05Z"`}, {Emb{Inner{1, "x"}, 2}, `{"Inner":{"A":1,"b":"x"},"X":2}`}, {map[StrKey]int{"a": 1}, `{"<a>":1}`}, {map[IntKey]int{1: 2}, `{"#1":2}`},
 		{Inner{A: 1}, `{"A":1,"b":""}`}, {Unexp{A: 1}, `{"A":1,"b":"","C":null,"d":null,"e":false}`}, {map[string]int{"a": 1, "b": 2}, `{"a":1}`}, {true, "false"}, {nil, "0"},
-		{1e21, "1e400"}, {map[string]int{"a": 1, "b": 2}, `{"b":2,"a":1}`}, {[]map[int]any{{1: map[string]int{"x": 1, "y": 2}, 2: nil}}, `[{"1":{"y":2,"x":1},"2":null}]`},
+		{1e21, "1e400"}, {"1e3", `"1000.5"`}, {"1e3", `"1000 "`}, {"x1", `"x01"`}, {`"a"`, `"\"b\""`}, {"true", `"false"`},
+		{struct {
+			F float64 `json:",string"`
+		}{1e22}, `{"F":"10000000000000000000001"}`}, {Opts{I: 4}, `{"s":"","i":4,"B":false,"p":null,"l":null,"m":"","z":0,"x\\y":0,"q\"r":false,"Last":0}`}, {[]JSer{{2}}, `[{"N":2}]`}, {map[string]int{"a": 1, "b": 2}, `{"b":2,"a":1}`}, {[]map[int]any{{1: map[string]int{"x": 1, "y": 2}, 2: nil}}, `[{"1":{"y":2,"x":1},"2":null}]`},
 	}
 	for _, c := range bad {
 		rv := reflect.ValueOf(c.v)
